@@ -75,6 +75,10 @@ func init() {
 	reg("math/big.NewInt", func(ex *Exec, st *State, fn *ssa.Function, args []Value, site ssa.Instruction) Value {
 		return ex.bigNew(st, Sext(args[0].(*Term), ex.bigW()))
 	})
+	// the model of big.Int is its value; the word slice handed out for in-place wiping is empty (zero.BigInt then sets 0)
+	reg("(*math/big.Int).Bits", func(ex *Exec, st *State, fn *ssa.Function, args []Value, site ssa.Instruction) Value {
+		return ex.mkSliceFromElems(st, nil)
+	})
 	reg("(*math/big.Int).SetInt64", func(ex *Exec, st *State, fn *ssa.Function, args []Value, site ssa.Instruction) Value {
 		ex.bigSet(st, args[0], Sext(args[1].(*Term), ex.bigW()))
 		return args[0]
